@@ -1,4 +1,5 @@
 import PilotaModel.Gen.Templates
+import PilotaModel.Thrift.Len
 /-
   T2 for the Thrift code-generation templates (C02, C04, C08): the per-type arms of `codegen_encode_ty`,
   `codegen_encode_field`, `codegen_ty_size`, `codegen_field_size`, `codegen_decode_ty` and `ttype`
@@ -51,5 +52,35 @@ theorem field_helpers_agree : ∀ p ∈ writeFieldHeader, lookupS fieldLenHeader
 field header is what the emitted decoder of the same schema matches on -/
 theorem header_type_is_declared_type : ∀ k ∈ leafKinds, k ≠ .vec →
     lookupS writeFieldHeader (stem k) = some (wire k) ∧ lookupS fieldLenHeader (stem k) = some (wire k) := by decide
+
+/-! ### fields whose type is a path: enum, struct, typedef (of any wire type) -/
+
+def lookupK (t : List (PathKind × TType)) (k : PathKind) : Option TType := (t.find? (·.1 == k)).map (·.2)
+
+/-- **what the emitted encoder announces in the header of an enum / struct / typedef field is what the emitted decoder of the
+same schema matches on** (`ttype`), for a typedef of every wire type: `ttype` follows a typedef to its target, and
+`write_struct_field` is given that very type (fails when the typedef arm of `ttype` stops following the chain) -/
+theorem path_header_is_declared_type : ∀ k ∈ pathKinds,
+    (lookupK ttypePath k).isSome ∧ lookupK encodeFieldPathHeader k = lookupK ttypePath k := by decide
+
+/-- **the size template sizes a bool header exactly when the encode template writes one** (D39: before fix cb66bc4 a typedef
+of bool was sized with a struct header, one byte too many under the compact protocol; the theorem fails on that table) -/
+theorem path_size_header_class : ∀ k ∈ pathKinds,
+    (lookupK fieldSizePathHeader k).isSome ∧
+    (lookupK fieldSizePathHeader k).map (· == .bool) = (lookupK encodeFieldPathHeader k).map (· == .bool) := by decide
+
+/-- … and whether the header is a bool header is the only property of its type any length machine looks at: two field headers
+of non-bool types have the same length, in the same state, under the binary family and under compact -/
+theorem header_len_depends_on_bool_only (s : Compact.CW) (t t' : TType) (id : Int) (ht : t ≠ .bool) (ht' : t' ≠ .bool)
+    (hc : (Compact.compactOf t).isSome = true) (hc' : (Compact.compactOf t').isSome = true) :
+    Len.cmpStep s (.fieldBegin t id) = Len.cmpStep s (.fieldBegin t' id) ∧ Len.binOp (.fieldBegin t id) = Len.binOp (.fieldBegin t' id) := by
+  refine ⟨?_, rfl⟩
+  simp only [Len.cmpStep, ht, ht', if_false]
+  cases h1 : Compact.compactOf t with
+  | none => simp [h1] at hc
+  | some a =>
+    cases h2 : Compact.compactOf t' with
+    | none => simp [h2] at hc'
+    | some b => rfl
 
 end Pilota.Props.Templates
